@@ -39,6 +39,7 @@ func VerifHarness_C07_EmptyReceiver() {
 	t := verifFullTable()
 	names := verifNames(t)
 	name := names[verifrt.Choose("fn", len(names))]
+	verifrt.Tag("fnName", name)
 	verifrt.Assume(!verifAggregates[name] && !verifUnimplemented[name])
 	fn := t[name]
 	n := verifrt.Choose("nargs", 5)
@@ -63,6 +64,7 @@ func VerifHarness_C07_EmptyArgument() {
 	t := verifFullTable()
 	names := verifNames(t)
 	name := names[verifrt.Choose("fn", len(names))]
+	verifrt.Tag("fnName", name)
 	verifrt.Assume(!verifCollectionArg[name] && !verifUnimplemented[name])
 	fn := t[name]
 	n := 1 + verifrt.Choose("nargs", 3)
